@@ -12,6 +12,9 @@ CHECKS = {
  "C01": dict(level="exploration", engine="E1+E2", technique="model-based property testing (proptest histories vs reference nested map) + exhaustive deletion-subset enumeration of small multi-level trees",
    text="Generated API histories and every deletion subset of small one-/two-/three-level and mixed trees are executed against jammdb and a reference nested ordered map; every return value, a fresh-reader dump, an independent parse of the file and a reopen are compared after every commit. Exploration: bounded by the generated set reported in the evidence, not a proof.",
    note="Reference model encodes DESIGN.md 1.3; independent parser encodes the pinned file layout; scratch files on tmpfs; x86_64 Linux.", ref="4/C01"),
+ "C02": dict(level="fault_enumeration", engine="E1+E2+E3", technique="crash-image enumeration from an LD_PRELOAD write log of generated histories: all subsets of unsynced writes (exhaustive <= 10, structured + seeded above), torn at sector / word granularity, size change durable or lost; oracle = independent parser + reopen show exactly the previous or the new state",
+   text="Generated histories run in a worker under an I/O shim that records every write, sync and file size; for every group of writes between two completed syncs all (or a structured + seeded sample of) subsets, torn variants and size variants are materialised on a scratch file, which must parse as structurally sound, show exactly S_{i-1} or S_i (exactly S_i after commit returned) and reopen through the public API to the same state.",
+   note="Classic power-loss model (DESIGN.md 9); fallocate is observed through fstat, not intercepted.", ref="4/C02"),
  "C03": dict(level="exploration", engine="E1+E2", technique="stateful property testing: generated single-thread interleavings of up to 4 readers with committing / rolling-back writers, every open reader re-dumped and compared with its model snapshot after every step",
    text="Generated step sequences (open reader, close any reader, writer commit/rollback with update/delete-heavy ops that free and reuse pages, reopen); each reader keeps the model clone from its begin and is re-verified in full after every step; commits are also parsed independently to know which of them reused freed pages.",
    note="File pre-sized so no commit grows it while a reader is open on the same thread (documented self-deadlock); such cases are discarded and counted.", ref="4/C03"),
@@ -30,6 +33,9 @@ CHECKS = {
  "C10": dict(level="exploration", engine="E1+E2", technique="property testing over seeded long stationary workloads with a metamorphic bound: high-water mark bounded by measured live + dirty pages (independent parser after every commit)",
    text="Seeded long workloads (fixed-size overwrite, variable-size overwrite/delete, bucket create/delete cycles; with reopen, rollbacks, pinned reader) are run for hundreds to thousands of transactions; after every commit the independent parser measures live pages, dirty pages and the high-water mark; the high-water mark must stay within a bound relative to measured live and dirty pages for every prefix of the run, a pinned reader must keep seeing its snapshot, and growth must stop once it closes.",
    note="Bounds calibrated on the unchanged tree (plateau ~1.1-1.6x live; a free list that never releases exceeds the bound within ~100 transactions).", ref="4/C10"),
+ "C11": dict(level="fault_enumeration", engine="E1+E2+E3", technique="fault injection enumerated over every I/O call of a target commit (LD_PRELOAD shim: EIO, ENOSPC, short write then error; RLIMIT_FSIZE for file extension), oracle = Err not panic, pre-or-post state on the same handle, independent parser, further commits and reopen match the model",
+   text="A dry run counts the lseek/write/fsync calls a target commit issues; one worker process per (call, errno, short-write variant) then runs the same history with that call failing. The commit must return Err; the same handle must show exactly the pre- or post-transaction state, pass the independent parser and DB::check, accept 3-6 further generated transactions that match the model continued from the observed state, and reopen to the same. Single faults are exhaustive per target commit.",
+   note="Faults at the libc boundary; a fault makes exactly one call fail.", ref="4/C11"),
  "C12": dict(level="fault_enumeration", engine="E1+E2", technique="fault enumeration: every single-byte damage at every offset of either header page (several byte values; all 255 on defined bytes in the thorough tier), zeroing, multi-byte overwrites and torn tails, after every commit count 0..N; oracle = dump equals the state of the intact header",
    text="For files after 0..N commits of generated histories every enumerated damage is applied to the newest or the older header page of a copy; opening must succeed and the full dump must equal the state recorded by the intact header whenever a byte the format defines changed (either state otherwise). Single faults are enumerated exhaustively for the offsets and values listed in the evidence.",
    note="Other header and all data pages intact; single-process open.", ref="4/C12"),
@@ -74,6 +80,7 @@ def main():
         },
         "engines": [
             {"name": "E1", "path": "harness/src/{model,ops,interp,shapes}.rs", "serves_properties": ["C01","C03","C05","C06","C07","C08","C10","C15","C16"], "kind_free_text": "reference model + operation grammar (proptest strategies) + history interpreter with oracles"},
+            {"name": "E3", "path": "shim/io_shim.c + harness/src/{crash,worker}.rs", "serves_properties": ["C02","C11","C13"], "kind_free_text": "LD_PRELOAD I/O shim (write log, fault injection, gates), crash-image enumerator, worker processes"},
             {"name": "E2", "path": "harness/src/fsck.rs", "serves_properties": ["C01","C02","C05","C06","C10","C11","C12","C15","C16"], "kind_free_text": "independent file parser / page accountant written from the pinned layout"},
         ],
         "checks": checks,
